@@ -362,14 +362,36 @@ func (c *Ctx) c12Maps() {
 			}
 			// key/value emitted are the iteration's key/value
 			okKV := 0
+			isEntry := func(arg ssa.Value) bool {
+				if ex, ok := core.Strip(arg).(*ssa.Extract); ok {
+					if nx, ok := ex.Tuple.(*ssa.Next); ok && nx.Iter == ssa.Value(rng) && (ex.Index == 1 || ex.Index == 2) {
+						return true
+					}
+				}
+				return false
+			}
 			for _, ci := range core.Calls(wp) {
-				if !isWriterMethod(ci, "AddString") {
+				if isWriterMethod(ci, "AddString") {
+					if isEntry(ci.Common().Args[1]) {
+						okKV++
+					}
 					continue
 				}
-				arg := core.Strip(ci.Common().Args[1])
-				if ex, ok := arg.(*ssa.Extract); ok {
-					if nx, ok := ex.Tuple.(*ssa.Next); ok && nx.Iter == ssa.Value(rng) && (ex.Index == 1 || ex.Index == 2) {
-						okKV++
+				// a helper of package wire that emits the message: its AddString arguments are its parameters
+				h := core.StaticCallee(ci)
+				if h == nil || !c.P.InPkg(h, "wire") || h.Blocks == nil {
+					continue
+				}
+				for _, hi := range core.Calls(h) {
+					if !isWriterMethod(hi, "AddString") {
+						continue
+					}
+					if prm, ok := core.Strip(hi.Common().Args[1]).(*ssa.Parameter); ok {
+						for i, hp := range h.Params {
+							if hp == prm && i < len(ci.Common().Args) && isEntry(ci.Common().Args[i]) {
+								okKV++
+							}
+						}
 					}
 				}
 			}
